@@ -5,6 +5,7 @@
      (3xj+xk)/4, (xj+3xk)/4, (xj+xk)/2 (times l/6 resp. 2l/6)  and  (2xj+xk)/3, (xj+2xk)/3 (times l/2),
    are the exact integrals of r phi_a phi_b and r phi_a; the planar weights are the case r = 1. *)
 From Coq Require Import Reals Lra ssreflect.
+Set Warnings "-ambiguous-paths".
 From Coquelicot Require Import Coquelicot.
 Local Open Scope R_scope.
 
